@@ -72,10 +72,11 @@ theorem kindsRes_mem (cx : Ctx) : ∀ (ks : List String), (kindsRes cx ks).bad =
       rw [hc] at hb
       simp only at hb ⊢
       rcases List.mem_cons.mp hk with rfl | hk
-      · exact ⟨a0, hc, ⟨fun h => by simp [Abs.alt, h], fun x h => by simp [Abs.alt, h], fun x h => by simp [Abs.alt, h]⟩⟩
+      · exact ⟨a0, hc, ⟨fun h => by simp [Abs.alt, h], fun x h => (SymSet.mem_append _ _ _).mpr (Or.inl h),
+          fun x h => (SymSet.mem_append _ _ _).mpr (Or.inl h)⟩⟩
       · obtain ⟨a, h1, h2⟩ := ih hb k hk
-        exact ⟨a, h1, ⟨fun h => by simp [Abs.alt, h2.n h], fun x h => by simp [Abs.alt, h2.f x h],
-          fun x h => by simp [Abs.alt, h2.l x h]⟩⟩
+        exact ⟨a, h1, ⟨fun h => by simp [Abs.alt, h2.n h], fun x h => (SymSet.mem_append _ _ _).mpr (Or.inr (h2.f x h)),
+          fun x h => (SymSet.mem_append _ _ _).mpr (Or.inr (h2.l x h))⟩⟩
 
 /-- what a value read from a well-formed node can be, relative to an abstract summary -/
 inductive ValIn (cx : Ctx) (A : Abs) : Val → Prop where
@@ -108,7 +109,7 @@ theorem slotVal (cx : Ctx) (ty : SlotTy) (v : Val) (hs : slotOK ty v = true) (hw
       simp only [slotOK] at hs
       have hm : sig s ∈ cs := by simpa using hs
       have : Sym.t (sig s) ∈ cs.map Sym.t := List.mem_map.mpr ⟨_, hm, rfl⟩
-      exact .tok s (by simpa [slotRes, Res.ok, Abs.ofSyms] using this) (by simpa [slotRes, Res.ok, Abs.ofSyms] using this)
+      exact .tok s ((SymSet.mem_ofList _ _).mpr this) ((SymSet.mem_ofList _ _).mpr this)
     | none => simp [slotOK] at hs
     | bool b => simp [slotOK] at hs
     | int i => simp [slotOK] at hs
